@@ -431,9 +431,16 @@ package graphsync
 //@   loop 1 invariant [snapshot] true
 //@   loop 2 invariant [channels] $i >= 0
 //@ func (*graphsync.Transport).ChannelsForPeer {C20}
+//@   ensures [scans-request-map-unless-self] {C16} calls(requestIDToChannelIDMap.forEach) == (p == t.peerID ? 0 : 1) && all(requestIDToChannelIDMap.forEach, $0 == t.requestIDToChannelID)
 //@   acquires {C20} graphsync.Transport.dtChannelsLk, graphsync.requestIDToChannelIDMap.lk
 //@ func (*graphsync.Transport).ChannelsForPeer$1 {C20}
 //@   requires *t != nil && *sending != nil && *receiving != nil
+//@   ensures [other-peers-channels-skipped] {C16} chid.Initiator != *p && chid.Responder != *p ==>
+//@       (forall k datatransfer.ChannelID :: has(*sending, k) == old(has(*sending, k)) && has(*receiving, k) == old(has(*receiving, k)))
+//@   ensures [listed-by-direction] {C16} chid.Initiator == *p || chid.Responder == *p ==>
+//@       (isSending ? has(*sending, chid) && has(*receiving, chid) == old(has(*receiving, chid)) : has(*receiving, chid) && has(*sending, chid) == old(has(*sending, chid))) &&
+//@       (forall k datatransfer.ChannelID :: k != chid ==> has(*sending, k) == old(has(*sending, k)) && has(*receiving, k) == old(has(*receiving, k)))
+//@       -- a request of a channel with that peer is listed under its channel, on the side (sending / receiving) the request map records; channels with other peers are not listed
 //@   modifies *sending, *receiving
 //@   rlocked (*t).dtChannelsLk
 //@ func graphsync.UseStore$1 {C20}
